@@ -237,10 +237,18 @@ def stereo_mol_graph_to_rdmol(
                 ]
             )
 
-            if neighbors in {p[1:] for p in a_stereo._perm_atoms()}:
-                rd_atom.SetUnsignedProp("_chiralPermutation", 1)
-            else:
-                rd_atom.SetUnsignedProp("_chiralPermutation", 2)
+            # permutation labels as read by the importer
+            for sp_label, sp_order in (
+                (1, (0, 1, 2, 3)),
+                (2, (0, 2, 1, 3)),
+                (3, (0, 1, 3, 2)),
+            ):
+                if len(neighbors) != 4:
+                    break
+                sp_atoms = (atom, *[neighbors[i] for i in sp_order])
+                if SquarePlanar(sp_atoms, 0) == a_stereo:
+                    rd_atom.SetUnsignedProp("_chiralPermutation", sp_label)
+                    break
 
         elif a_stereo is not None and isinstance(
             a_stereo, TrigonalBipyramidal
@@ -249,12 +257,13 @@ def stereo_mol_graph_to_rdmol(
             rd_atom.SetChiralTag(Chem.ChiralType.CHI_TRIGONALBIPYRAMIDAL)
             if a_stereo.parity is not None:
 
-                atoms_order = (a_stereo._inverted_atoms()
-                               if a_stereo.parity == -1 else a_stereo.atoms)
-                rd_id_order = tuple([map_num_idx_dict[a]
-                                     for a in atoms_order[1::]])
-                rd_nbr_order = tuple([nbr.GetIdx() for nbr in rd_atom.GetNeighbors()])
-                
+                rd_nbr_order = tuple(
+                    [
+                        idx_map_num_dict[nbr.GetIdx()]
+                        for nbr in rd_atom.GetNeighbors()
+                    ]
+                )
+
                         # adapted from http://opensmiles.org/opensmiles.html
                 atom_order_permutation_dict = {
                 (0, 1, 2, 3, 4): 1,
@@ -281,10 +290,13 @@ def stereo_mol_graph_to_rdmol(
 
                 for perm, val in atom_order_permutation_dict.items():
 
+                    if len(rd_nbr_order) != 5:
+                        break
                     rd_nbr_perm = tuple([rd_nbr_order[i] for i in perm])
                     rd_nbr_perm = tuple([rd_nbr_perm[i] for i in (0, 4, 1, 2, 3)])
 
-                    if rd_id_order == rd_nbr_perm:
+                    # compare modulo the symmetry of the bipyramid
+                    if TrigonalBipyramidal((atom, *rd_nbr_perm), 1) == a_stereo:
                         rd_atom.SetUnsignedProp("_chiralPermutation", val)
                         break
 
